@@ -105,13 +105,54 @@ def concurrent_stage(ctx, binary, vectors, par, seconds, label, sequential_keys=
         again, _ = once(label + "-confirm")
         seen = {"C03:concurrent:" + f["key"].split(":", 1)[-1] for r in again for f in r.get("findings", []) if f["level"] == "prop"}
         for key, lst in sorted(prop.items()):
-            if key not in seen:
-                raise vlib.InfraError("concurrent-stage finding %s did not reproduce in a second run" % key)
             r, f = lst[0]
+            if key not in seen:
+                unreproduced(ctx, key, f["what"], {"mode": "concurrent", "count": len(lst)})
+                continue
             ids = {x["id"] for x, _ in lst[:20]}
             sample = [byid[i] for i in sorted(ids)] + vectors[:200]
             replay = {"mode": "concurrent", "key": key, "par": par, "seconds": max(3, seconds), "vectors": sample, "seed": ctx.seed, "k": 1}
             ctx.report(key, "only when encoders run concurrently in separate buffers: " + f["what"], replay)
+    return summary
+
+
+REPRO_ATTEMPTS = 3
+
+
+def unreproduced(ctx, key, what, info):
+    lst = ctx.coverage.setdefault("unreproduced", [])
+    lst.append(dict(info, key=key, what=what[:300]))
+    vlib.log("  note: %s was observed but did not reproduce in %d re-executions (recorded in coverage.unreproduced)" % (key, REPRO_ATTEMPTS))
+
+
+def send_concurrent_stage(ctx, binary, par, seconds):
+    """A pooled buffer belongs to one send action between Get and Put, also on error paths: after the refused oversized RA,
+    `par` goroutines send through their own sessions (shared process-wide pool); every frame is judged against what its
+    goroutine asked for.  Reported when the stage shows the key again in one of REPRO_ATTEMPTS further runs."""
+    def once(tag):
+        rp = os.path.join(ctx.scratch, "%s.res.ndjson" % tag)
+        p = vlib.run_driver(ctx, binary, ["-sendconc", "-out", rp, "-par", par, "-dur", seconds, "-tmp", ctx.scratch], timeout=int(seconds) + 300)
+        return vlib.read_ndjson(rp), json.loads(p.stdout.strip().splitlines()[-1])
+    results, summary = once("sendconc")
+    prop = {}
+    for r in results:
+        for f in r.get("findings", []):
+            if f["level"] == "prop":
+                prop.setdefault(f["key"], []).append((r, f))
+    if prop:
+        seen = set()
+        for attempt in range(REPRO_ATTEMPTS):
+            again, _ = once("sendconc-confirm%d" % attempt)
+            seen |= {f["key"] for r in again for f in r.get("findings", []) if f["level"] == "prop"}
+            if all(k in seen for k in prop):
+                break
+        for key, lst in sorted(prop.items()):
+            r, f = lst[0]
+            if key not in seen:
+                unreproduced(ctx, key, f["what"], {"mode": "sendconc", "count": len(lst)})
+                continue
+            replay = {"mode": "sendconc", "key": key, "par": par, "seconds": max(3, seconds), "frame": r.get("frame"), "seed": ctx.seed, "k": 1}
+            ctx.report(key, f["what"], replay)
     return summary
 
 
@@ -144,19 +185,24 @@ def judge(ctx, binary, mode, vectors, results, k, label, remap=None):
             for r, f in lst[:2]:
                 reps.setdefault(r["id"], set()).add(key)
         rv = [byid[i] for i in sorted(reps)]
-        again, _ = drive(ctx, binary, mode, rv, k, label + "-confirm")
         seen = set()
-        for r in again:
-            for f in r.get("findings", []):
-                kk = f["key"]
-                if remap:
-                    kk = remap(r, f) or kk
-                if f["level"] == "prop":
-                    seen.add((r["id"], kk))
+        for attempt in range(REPRO_ATTEMPTS):     # timing dependent observations get several chances
+            again, _ = drive(ctx, binary, mode, rv, k, "%s-confirm%d" % (label, attempt))
+            for r in again:
+                for f in r.get("findings", []):
+                    kk = f["key"]
+                    if remap:
+                        kk = remap(r, f) or kk
+                    if f["level"] == "prop":
+                        seen.add((r["id"], kk))
+            if all(any((r["id"], key) in seen for r, f in lst[:2]) for key, lst in prop.items()):
+                break
         for key, lst in sorted(prop.items()):
             ok = [(r, f) for r, f in lst[:2] if (r["id"], key) in seen]
             if not ok:
-                raise vlib.InfraError("property-level finding %s did not reproduce (vector %s)" % (key, lst[0][0]["id"]))
+                # seen once, not again in REPRO_ATTEMPTS re-executions: an observation, not a verdict (and not an error)
+                unreproduced(ctx, key, lst[0][1]["what"], {"mode": mode, "vector": lst[0][0]["id"], "count": len(lst)})
+                continue
             r, f = ok[0]
             replay = {"mode": mode, "k": k, "key": key, "vector": byid[r["id"]], "frame": r.get("frame"), "seed": ctx.seed}
             verdict = ctx.report(key, f["what"], replay)
@@ -171,6 +217,18 @@ def replay(ctx, path, remap=None):
     rp = obj["replay"]
     ctx.seed = rp.get("seed", obj.get("seed", ctx.seed))
     binary = build_driver(ctx)
+    if rp["mode"] == "sendconc":
+        out = os.path.join(ctx.scratch, "replay.res.ndjson")
+        for _ in range(REPRO_ATTEMPTS):
+            vlib.run_driver(ctx, binary, ["-sendconc", "-out", out, "-par", rp["par"], "-dur", rp["seconds"], "-tmp", ctx.scratch], timeout=600)
+            for r in vlib.read_ndjson(out):
+                for f in r.get("findings", []):
+                    if f["level"] == "prop" and f["key"] == rp["key"]:
+                        print("VIOLATION property=%s replay=%s" % (ctx.pid, path))
+                        vlib.log("  reproduced: %s" % f["what"])
+                        return 1
+        print("not reproduced")
+        return 0
     if rp["mode"] == "concurrent":
         vp = os.path.join(ctx.scratch, "replay.vec.ndjson")
         out = os.path.join(ctx.scratch, "replay.res.ndjson")
